@@ -2,6 +2,11 @@
 // create_depots) — C17 "the given depots (or one unlimited depot per location) with their total and
 // per-type capacities plus an overflow depot that can always host every vehicle"; C06 (D5).
 //
+// Loader (C17 first sentence), also R8: create_service_trips (arrival = departure + duration, distance, seated, formation
+// limit, the node built from exactly these values), create_maintenance_slots (per-slot closure), create_depots
+// `Some(depots)` branch (total and per-type capacities of a given depot).  A-text: DateTime::new (string parser)
+// is a stub over the uninterpreted `dt_of_text`; StdMap Index (`map[&key]` panics unless the key is present).
+//
 // R8: Network::new, create_network and create_depots are not brought in as a whole; the expressions that
 // decide the capacities are lifted verbatim, the rest of each function is pinned by its skeleton hash.
 //
@@ -248,7 +253,7 @@ pub proof fn lemma_no_type_limit_means_total(d: Depot, vt: VehicleTypeIdx)
         broadcast use {lemma_sum_enum, lemma_enum_len_le_total};
 //@end
 
-//@skeleton model/src/json_serialisation/mod.rs fn create_depots : let allowed_vehicle_types; closure map#1 = d59919af68034836
+//@skeleton model/src/json_serialisation/mod.rs fn create_depots : let allowed_vehicle_types; closure map#1; closure map#2 = c72a1479a1f51594
 
 //@frag model/src/json_serialisation/mod.rs fn create_depots : let allowed_vehicle_types as frag_allowed_vehicle_types
 //@params vehicle_type_lookup: &StdMap<IdType, VehicleTypeIdx>
@@ -372,6 +377,93 @@ pub type DateTimeString = String;
         r.id == id, r.vehicle_type == vehicle_type, r.origin == origin, r.destination == destination,
         r.departure == departure_time, r.arrival == arrival_time, r.distance == distance,
         r.passengers == passengers, r.seated == seated, r.maximal_formation_count == maximal_formation_count, // @obl C17.loader.node_carries_the_segments_own_data
+//@end
+// ================================================================ create_maintenance_slots : one node per slot
+// C17: "one node per maintenance slot": the per-slot computation (closure of the `map`) is lifted (R8); that the
+// closure runs once per slot of the input, in order, is `iter().map(..).collect()` (A-lib, skeleton-pinned).
+//@item model/src/json_serialisation/mod.rs struct MaintenanceSlots : plain
+//@end
+//@item model/src/locations.rs Locations::get
+//@retname r
+//@sig
+    ensures self.stations@.contains_key(location_idx) ==> r == Ok::<Location, &'static str>(Location::Station(location_idx)),
+        !self.stations@.contains_key(location_idx) ==> r is Err,
+//@end
+/// A-text: rapid_time's `DateTime::new(&str)` (string parser, not under contract)
+//@item @rapid_time/src/date_time.rs DateTime::new : trusted
+//@retname r
+//@sig
+    requires dt_text_ok(string@),
+    ensures r == dt_of_text(string@),
+//@end
+
+//@skeleton model/src/json_serialisation/mod.rs fn create_maintenance_slots : closure map#0 = 2eaa7bcfb1cf7075
+
+//@frag model/src/json_serialisation/mod.rs fn create_maintenance_slots : closure map#0 as frag_maintenance_slot
+//@params locations: &Locations, location_lookup: &StdMap<IdType, LocationIdx>, maintenance_slot: &MaintenanceSlots
+//@ret (r: MaintenanceSlot)
+//@sig
+    requires
+        // documented input format: "references resolve" and the times are well-formed date-time strings
+        location_lookup@.contains_key(maintenance_slot.location),
+        locations.stations@.contains_key(location_lookup@[maintenance_slot.location]),
+        dt_text_ok(maintenance_slot.start@), dt_text_ok(maintenance_slot.end@),
+    ensures
+        r.id@ == maintenance_slot.id@,
+        r.location == Location::Station(location_lookup@[maintenance_slot.location]),
+        r.start == dt_of_text(maintenance_slot.start@), r.end == dt_of_text(maintenance_slot.end@),
+        r.track_count == maintenance_slot.track_count as u32,
+        maintenance_slot.track_count <= u32::MAX ==> r.track_count == maintenance_slot.track_count, // @obl C17.loader.maintenance_node_carries_the_slots_own_data
+//@end
+// ================================================================ create_depots : the given depots
+// C17: "the given depots … with their total and per-type capacities": the per-depot computation (closure of the
+// `map` in the `Some(depots)` branch) is lifted (R8).  The JSON structs live in `mod json` (their names clash with
+// the model's).
+pub mod json {
+use super::*;
+//@item model/src/json_serialisation/mod.rs struct TypeCapacities : plain
+//@end
+//@item model/src/json_serialisation/mod.rs struct Depot : plain
+//@end
+}
+pub open spec fn cast_limit(c: Option<Integer>) -> Option<VehicleCount> {
+    match c { Some(x) => Some(x as u32), None => None }
+}
+/// the per-type capacities of a given depot: one entry per listed type (a later entry for the same type
+/// overrides an earlier one), the limit cast to u32, None = no per-type limit
+pub open spec fn json_allowed(lookup: Map<IdType, VehicleTypeIdx>, ts: Seq<json::TypeCapacities>, k: int) -> Map<VehicleTypeIdx, Option<VehicleCount>>
+    decreases k,
+{
+    if k <= 0 { Map::empty() }
+    else { json_allowed(lookup, ts, k - 1).insert(lookup[ts[k - 1].vehicle_type], cast_limit(ts[k - 1].capacity)) }
+}
+//@frag model/src/json_serialisation/mod.rs fn create_depots : closure map#2 as frag_given_depot
+//@params loc: &Locations, location_lookup: &StdMap<IdType, LocationIdx>, vehicle_type_lookup: &StdMap<IdType, VehicleTypeIdx>, idx: usize, depot: &json::Depot
+//@ret (r: ModelDepot)
+//@closure-params map#3
+    Integer
+//@closure map#3
+    -> (c: VehicleCount) ensures c == x as u32
+//@sig
+    requires
+        // documented input format: "references resolve"
+        location_lookup@.contains_key(depot.location),
+        loc.stations@.contains_key(location_lookup@[depot.location]),
+        forall|i: int| 0 <= i < depot.allowed_types@.len() ==> vehicle_type_lookup@.contains_key(#[trigger] depot.allowed_types@[i].vehicle_type),
+    ensures
+        r.idx == DepotIdx(idx as u16),
+        r.id@ == depot.id@,
+        r.location == Location::Station(location_lookup@[depot.location]),
+        r.total_capacity == depot.capacity as u32,
+        depot.capacity <= u32::MAX ==> r.total_capacity == depot.capacity, // @obl C17.loader.given_depot_total_capacity
+        r.allowed_types@ == json_allowed(vehicle_type_lookup@, depot.allowed_types@, depot.allowed_types@.len() as int), // @obl C17.loader.given_depot_per_type_capacities
+//@loop "for allowed_type in"
+            invariant
+                it.index@ <= depot.allowed_types@.len(),
+                allowed_types@ == json_allowed(vehicle_type_lookup@, depot.allowed_types@, it.index@ as int), // @obl C17.loader.given_depot_per_type_capacities
+                forall|i: int| 0 <= i < depot.allowed_types@.len() ==> vehicle_type_lookup@.contains_key(#[trigger] depot.allowed_types@[i].vehicle_type),
+//@first
+        broadcast use {axiom_from_id_u32, axiom_from_id_u32_obeys};
 //@end
 } // verus!
 fn main() {}
